@@ -239,22 +239,24 @@ def main(argv):
         ck = Checker(pid, tier)
         mod = importlib.import_module("qsa.rules.%s" % pid.lower())
         mod.run(ck)
-        if tier == "thorough" and only is None:
-            from . import battery, selftest
+        from . import battery
 
-            # (b) neighbourhood: rules of other properties that share code with this one
-            for modname, prefix in battery.NEIGHBOURS.get(pid, []):
-                nb = Checker(pid, tier)
-                nb.program = ck.program
-                try:
-                    importlib.import_module("qsa.rules.%s" % modname).run(nb)
-                except Exception as e:  # a neighbour must not break this property's verdict
-                    ck.undecided(prefix, "neighbour", "", "neighbour rules failed: %s" % e)
-                    continue
-                for r in nb.results:
-                    if r.rule.startswith(prefix) and r.instance != "instance-count":
-                        r.rule = "%s<-%s" % (pid, r.rule)
-                        ck.results.append(r)
+        # (b) imported necessary conditions: rules of other properties this one relies on (every tier, also in replay)
+        for modname, prefixes in battery.NEIGHBOURS.get(pid, []):
+            nb = Checker(pid, tier)
+            nb.program = ck.program
+            try:
+                importlib.import_module("qsa.rules.%s" % modname).run(nb)
+            except Exception as e:  # an imported rule set that cannot be evaluated leaves this property undecided
+                ck.undecided(prefixes[0], "imported rules", "", "imported rules failed: %s" % e)
+                continue
+            for r in nb.results:
+                if any(r.rule.startswith(px) for px in prefixes) and r.instance != "instance-count":
+                    r.rule = "%s<-%s" % (pid, r.rule)
+                    ck.results.append(r)
+        if tier == "thorough" and only is None:
+            from . import selftest
+
             # (c) self-validation of the checker on scratch copies
             selftest.thorough(ck, battery.VARIANTS.get(pid, []))
         if only is not None:
